@@ -149,32 +149,78 @@ def rule_limit(ctx):
     ctx.check(okr, 'C17.LIMIT', ctx.key(f, None, 'limit passed to the DB'), 'the DB read is bounded by the same limit',
               'the DB read is not bounded by the derived limit', loc=ctx.loc(f, f.node))
     n += 1
-    rv = norm(q.stmt(reads[0]).targets[0]) if reads and isinstance(q.stmt(reads[0]), ast.Assign) else None
-    convs = [s for s in f.own_nodes() if isinstance(s, ast.If) and rv and f'len({rv})' in norm(s.test)
-             and any(isinstance(x, ast.Assign) and norm(x.targets[0]) == rv and 'RPCError' in norm(x.value) for x in s.body)]
-    okc = False
-    if len(convs) == 1:
-        cn = q.comparison_normal(ctx, f, convs[0].test)
-        okc = cn is not None and cn[1] == '>=' and q.lin_eq(cn[0], {f'len({rv})': 1, lv: -1, '': 0})
+    # the rest is decided per path through the function, locals expressed in what the path read:
+    #   miss (KeyError) paths: X = what the DB read loop left; len(X) >= limit decides; the cache receives the RPCError when it
+    #   is too large and X otherwise; too large => the error is raised, otherwise (X, cost) is returned
+    #   hit paths: R = the cached entry; isinstance(R, Exception) decides between `raise R` and `return (R, cost)`
+    from .. import paths as P
+    LIM = norm(ld[0].value)
+
+    def too_large(pth):
+        for t, pol, _n in pth.conds:
+            if isinstance(t, ast.Compare) and len(t.ops) == 1:
+                l_, r_, op = norm(t.left), norm(t.comparators[0]), type(t.ops[0])
+                for a_, b_, o_, val in ((l_, r_, ast.GtE, True), (r_, l_, ast.LtE, True), (l_, r_, ast.Lt, False), (r_, l_, ast.Gt, False)):
+                    if op is o_ and a_.startswith('len(') and b_ == LIM:
+                        return a_[4:-1], pol == val
+        return None
+
+    def is_error(e):
+        return isinstance(e, ast.Call) and norm(e.func) == 'RPCError' and any(const_value(a_) == 'history too large' for a_ in e.args)
+    okc = oks = okx = True
+    miss = hit = 0
+    for pth in P.paths(f.node.body):
+        hs = [nd for _t, _pol, nd in pth.conds if isinstance(nd, ast.ExceptHandler)]
+        stores_ = [(st_, env_) for st_, env_ in pth.events if isinstance(st_, ast.Assign) and isinstance(st_.targets[0], ast.Subscript)
+                   and ctx.res.canon(st_.targets[0].value, f) == 'self._history_cache']
+        if hs:
+            miss += 1
+            tl = too_large(pth)
+            if tl is None or len(stores_) != 1:
+                okc = okc and tl is not None
+                oks = oks and len(stores_) == 1
+                continue
+            x, big = tl
+            v = P.subst(stores_[0][0].value, stores_[0][1])
+            # the value written is the one current *after* the conversion: substitute with the environment at the store
+            oks = oks and (is_error(v) if big else norm(v) == x)
+            # what the path decided about isinstance(<current result>, Exception)
+            ie = next((pol for t, pol, _n in pth.conds if isinstance(t, ast.Call) and norm(t.func) == 'isinstance' and len(t.args) == 2
+                       and norm(t.args[1]) == 'Exception' and (is_error(t.args[0]) if big else norm(t.args[0]) == x)), None)
+            if big:
+                if ie is False:
+                    continue          # infeasible: the RPCError just built is an Exception
+                okx = okx and ie is True and pth.exit == 'raise' and pth.value is not None and is_error(pth.value)
+            elif ie is True:
+                okx = okx and pth.exit == 'raise'
+            else:
+                okx = okx and pth.exit == 'return' and isinstance(pth.value, ast.Tuple) and norm(pth.value.elts[0]) == x
+        else:
+            hit += 1
+            r_ = next((norm(t.args[0]) for t, _pol, _n in pth.conds if isinstance(t, ast.Call) and norm(t.func) == 'isinstance'
+                       and len(t.args) == 2 and norm(t.args[1]) == 'Exception'), None)
+            isexc = P.truthy(pth, f'isinstance({r_}, Exception)') if r_ else None
+            cached = r_ is not None and ctx.res.canon(ast.parse(r_, mode='eval').body.value, f) == 'self._history_cache' \
+                if r_ and isinstance(ast.parse(r_, mode='eval').body, ast.Subscript) else False
+            if isexc is None or not cached or stores_:
+                okx = False
+            elif isexc:
+                okx = okx and pth.exit == 'raise' and norm(pth.value) == r_
+            else:
+                okx = okx and pth.exit == 'return' and isinstance(pth.value, ast.Tuple) and norm(pth.value.elts[0]) == r_
+    okc = okc and miss >= 2
+    oks = oks and miss >= 2
+    okx = okx and hit >= 2 and miss >= 2
     ctx.check(okc, 'C17.LIMIT', ctx.key(f, None, 'too-large test'),
               'a history of length >= limit (non-strict, the same limit) becomes the "history too large" error',
               'the conversion to "history too large" is not under len(result) >= limit: a truncated history is served as complete',
               loc=ctx.loc(f, f.node))
     n += 1
-    stores = [s for s in f.own_nodes() if isinstance(s, ast.Assign) and isinstance(s.targets[0], ast.Subscript)
-              and ctx.res.canon(s.targets[0].value, f) == 'self._history_cache']
-    oks = len(stores) == 1 and len(convs) == 1 and norm(stores[0].value) == rv and \
-        pr.path_avoiding(cfg, [cfg.entry], [cfg.node(stores[0])], {cfg.node(convs[0])}) is None and \
-        cfg.find_path([cfg.node(stores[0])], {cfg.node(convs[0])}) is None
-    ctx.check(oks, 'C17.LIMIT', ctx.key(f, stores[0] if stores else None, 'cached after conversion'),
+    ctx.check(oks, 'C17.LIMIT', ctx.key(f, None, 'cached after conversion'),
               'the result is cached only after the too-large conversion, so the cache holds the error',
               'the result can be cached before the too-large conversion: later requests are served the truncated history from the cache',
-              loc=ctx.loc(f, stores[0]) if stores else ctx.loc(f, f.node))
+              loc=ctx.loc(f, f.node))
     n += 1
-    raises = [s for s in f.own_nodes() if isinstance(s, ast.If) and norm(s.test) == f'isinstance({rv}, Exception)'
-              and len(s.body) == 1 and isinstance(s.body[0], ast.Raise) and norm(s.body[0].exc) == rv]
-    rets = [s for s in f.own_nodes() if isinstance(s, ast.Return)]
-    okx = len(raises) == 1 and bool(rets) and all(pr.path_avoiding(cfg, [cfg.entry], [cfg.node(r)], {cfg.node(raises[0])}) is None for r in rets)
     ctx.check(okx, 'C17.LIMIT', ctx.key(f, None, 'raised on every path'),
               'a cached or fresh error is raised on every path before anything is returned',
               'a path returns the result without the error test: the error is not raised consistently from the cache', loc=ctx.loc(f, f.node))
